@@ -79,6 +79,19 @@ def _b(x):
     return bool(x)
 
 
+def _np_div1(a, b):
+    try:
+        return a / b
+    except ZeroDivisionError:
+        a = S.as_real(a)
+        if a.k == NAN or bool(a == 0):
+            return SymReal(z3.RealVal(0), NAN)
+        return SymReal(z3.RealVal(0), PINF if bool(a > 0) else NINF)
+
+
+_npdiv = _np.frompyfunc(_np_div1, 2, 1)
+
+
 def _objlike(o):
     return isinstance(o, (SymBool, SymReal)) or (isinstance(o, _np.ndarray) and o.dtype == object)
 
@@ -153,6 +166,17 @@ class SymArray(_np.ndarray):
     def __ior__(self, o):
         self[...] = _np.asarray(self.__or__(o))
         return self
+
+    # array division has numpy semantics (x/0 = +-inf, 0/0 = nan, no exception), unlike division of Python floats
+    def __truediv__(self, o):
+        if self.dtype != object and not _objlike(o):
+            return _wrap(_np.asarray(self) / (_np.asarray(o) if isinstance(o, _np.ndarray) else o))
+        return _wrap(_npdiv(_np.asarray(self), _o(o)))
+
+    def __rtruediv__(self, o):
+        if self.dtype != object and not _objlike(o):
+            return _wrap((_np.asarray(o) if isinstance(o, _np.ndarray) else o) / _np.asarray(self))
+        return _wrap(_npdiv(_o(o), _np.asarray(self)))
 
     def __getitem__(self, idx):
         return _np.ndarray.__getitem__(self, _fix_index(idx))
